@@ -777,7 +777,7 @@ class DiffARBF(DiffRBF):
                     )
                     den.append(sktmp[n - 1] * (-1) ** (n + 1))
                     for k in range(n - 1):
-                        den[-1] += (-1) ** k * den[n - k] * sktmp[k]
+                        den[-1] += (-1) ** k * den[n - k] / (n - k - 1) * sktmp[k]
                 res = 0
                 if self.order > 0:
                     res += self.scale[1] * den[1]
@@ -826,7 +826,7 @@ class DiffARBF(DiffRBF):
                 )
                 den.append(sktmp[n - 1] * (-1) ** (n + 1))
                 for k in range(n - 1):
-                    den[-1] += (-1) ** k * den[n - k] * sktmp[k]
+                    den[-1] += (-1) ** k * den[n - k] / (n - k - 1) * sktmp[k]
             res = 0
             if self.order > 0:
                 res += self.scale[1] * den[1]
@@ -961,7 +961,7 @@ class DiffAdditiveMixin(DiffKernelMixin):
                     )
                     den.append(sktmp[n - 1] * (-1) ** (n + 1))
                     for k in range(n - 1):
-                        den[-1] += (-1) ** k * den[n - k] * sktmp[k]
+                        den[-1] += (-1) ** k * den[n - k] / (n - k - 1) * sktmp[k]
                 res = 0
                 if self.order > 0:
                     res += self.scale[1] * den[1]
@@ -1009,7 +1009,7 @@ class DiffAdditiveMixin(DiffKernelMixin):
                 )
                 den.append(sktmp[n - 1] * (-1) ** (n + 1))
                 for k in range(n - 1):
-                    den[-1] += (-1) ** k * den[n - k] * sktmp[k]
+                    den[-1] += (-1) ** k * den[n - k] / (n - k - 1) * sktmp[k]
             res = 0
             if self.order > 0:
                 res += self.scale[1] * den[1]
